@@ -302,6 +302,7 @@ class SQLiteTrigger(BaseTrigger):
         expected_last_execution: datetime | None = None,
     ) -> bool:
         with sqlite_conn(self.sqlite_db_path) as conn:
+            conn.execute("BEGIN IMMEDIATE")  # compare and swap under the write lock
             cursor = conn.execute(
                 f"SELECT last_cron_execution FROM {self.tables.CONDITIONS} WHERE condition_id = ?",
                 (condition_id,),
